@@ -1,6 +1,7 @@
 """Render projects with the real generator and lower them with the real compiler."""
 from __future__ import annotations
 
+from .paths import child_env
 import atexit
 import hashlib
 import json
@@ -142,7 +143,7 @@ def render(name, spec, timeout=900):
     with open(sp, "w") as fh:
         json.dump(spec, fh)
     env = dict(os.environ, TQDM_DISABLE="1", PYTHONHASHSEED="0", NAUNET_VERIF="1")
-    env.pop("PYTHONPATH", None)
+    child_env(env)
     t0 = time.time()
     try:
         r = subprocess.run([PY, os.path.join(HERE, "render_worker.py"), sp, work], capture_output=True, text=True, timeout=timeout, env=env)
@@ -159,7 +160,8 @@ def render(name, spec, timeout=900):
 def repo_fingerprint():
     """content hash of /repo/naunet (recorded in evidence: what was analysed)"""
     h = hashlib.sha256()
-    root = "/repo/naunet"
+    from .paths import REPO
+    root = REPO + "/naunet"
     for dp, dn, fn in sorted(os.walk(root)):
         dn.sort()
         if "__pycache__" in dp:
@@ -194,7 +196,7 @@ def render_cli(name, files, init_args, tdir, render_args=("--force",), timeout=9
         with open(os.path.join(pdir, f["name"]), "w") as fh:
             fh.write(f["content"])
     env = dict(os.environ, TQDM_DISABLE="1", PYTHONHASHSEED="0", NAUNET_VERIF="1")
-    env.pop("PYTHONPATH", None)
+    child_env(env)
     launcher = "import sys; from naunet.console import main; sys.exit(main())"
     t0 = time.time()
     log = ""
@@ -223,7 +225,7 @@ def rerender_exported(parent, expdir, tdir, timeout=900):
     (re-render from its own reactions.naunet + naunet_config.toml)"""
     pdir = os.path.join(parent.dir, expdir, tdir)
     env = dict(os.environ, TQDM_DISABLE="1", PYTHONHASHSEED="0", NAUNET_VERIF="1")
-    env.pop("PYTHONPATH", None)
+    child_env(env)
     launcher = "import sys; from naunet.console import main; sys.exit(main())"
     t0 = time.time()
     meta = {"ok": True, "targets": {tdir: {"ok": True}}}
